@@ -156,16 +156,17 @@ PlansMCThorough == {Plan("all", "Selected", 1, NoBound, "all", FALSE),
                     Plan("seq", "Few", 3, NoBound, "bnd", FALSE)}
 PlansPinned == {Plan("all", "Selected", 1, NoBound, "all", FALSE)}
 (* histories replayed on the real code (no VIEW: every state is a history) *)
-PlansHist == {Plan("single", "Selected", 1, 1, "all", TRUE),
-              Plan("bytes", "Selected", 1, NoBound, "bytes", FALSE),
-              Plan("pair", "Few", 1, 2, "pm1", FALSE),
-              Plan("edge", "Two", 1, 3, "bnd", FALSE),
-              Plan("seq", "Two", 2, 2, "bnd", FALSE)}
+PlansHist == {Plan("single", "Selected", 1, 1, "all", TRUE),            \* every single cut offset
+              Plan("bytes", "Selected", 1, NoBound, "bytes", FALSE),    \* byte-at-a-time (every prefix of it, then the rest)
+              Plan("pair", "Few", 1, 2, "pm1", FALSE),                  \* every pair of cuts next to a boundary
+              Plan("edge", "Two", 1, 3, "bnd", FALSE),                  \* every (prev, pos) -> (pos, pos') edge over the boundaries
+              Plan("seq", "Two", 2, 2, "bnd", FALSE)}                   \* keep-alive sequences
 PlansHistThorough == {Plan("single", "Selected", 1, 1, "all", TRUE),
                       Plan("bytes", "Selected", 1, NoBound, "bytes", FALSE),
                       Plan("pair", "Selected", 1, 2, "pm2", FALSE),
-                      Plan("edge", "Few", 1, 3, "bnd", FALSE),
-                      Plan("seq", "Few", 3, 2, "bnd", FALSE)}
+                      Plan("edge", "Selected", 1, 3, "bnd", FALSE),
+                      Plan("seq", "Few", 3, 1, "bnd", FALSE),
+                      Plan("seq2", "Two", 3, 2, "bnd", FALSE)}
 
 -----------------------------------------------------------------------------
 VARIABLES side,     \* the side under test
@@ -216,9 +217,10 @@ CRs(l) == {l.line} \cup LineCRs(l.hdrs, LineEnd(l)) \cup {HdrEnd(l) - 2}
                 ELSE {})
 Min(S) == CHOOSE x \in S : \A y \in S : x <= y
 
-(* where a read may end before the end of the message *)
+(* where a read may end before the end of the message: next to the structural
+   boundaries, and behind the first / before the last byte *)
 Targets(mode, l) ==
-  LET B == Boundaries(l)
+  LET B == Boundaries(l) \cup {1, Total(l) - 1}
       W == CASE mode = "pm2" -> {x + d : x \in B, d \in -2..2}
              [] mode = "pm1" -> {x + d : x \in B, d \in -1..1}
              [] mode = "bnd" -> B
